@@ -587,8 +587,21 @@ class PythonToIrCompiler:
             if ty is None:
                 self.error(node, "Undefined variable")
             else:
-                mem = self.emit(ir.Alloc(f"alloc_{name}", 8, 8))
-                addr = self.emit(ir.AddressOf(mem, f"addr_{name}"))
+                # Allocate in the entry block, such that the variable is
+                # available in all blocks (it might be assigned first in a
+                # branch or in a loop body):
+                mem = ir.Alloc(f"alloc_{name}", 8, 8)
+                addr = ir.AddressOf(mem, f"addr_{name}")
+                entry_block = self.builder.function.entry
+                if entry_block.is_closed:
+                    last = entry_block.last_instruction
+                    entry_block.insert_instruction(mem, before_instruction=last)
+                    entry_block.insert_instruction(
+                        addr, before_instruction=last
+                    )
+                else:
+                    self.emit(mem)
+                    self.emit(addr)
                 var = Var(addr, True, ty)
                 self.local_map[name] = var
         return var
